@@ -212,7 +212,7 @@ CHECKS = {
 # scope added by the third and fourth rounds of seeded changes (DESIGN.md 12.6)
 NOTE_ADD = {
     "C01": "k-medoids with zero sweeps; estimators reconfigured through attributes / set_params before fit; runs of 150-170 frames with more than 128 initial centers judged by Trace_ClusterLarge.tla",
-    "C02": "fractional off-data centers next to integer data; estimators reconfigured through attributes / set_params before fit",
+    "C02": "fractional off-data centers next to integer data; estimators reconfigured through attributes / set_params before fit; one recorded finding (known_findings.json: off-data initial centers + more clusters than frames + triangle shortcut), replayed in every tier and printed as KNOWN-FINDING",
     "C03": "unsigned storage with ids at the top of the type (uint8 / uint16); periodic trajectories of up to 2.2 million frames with closed-form counts (CountsPeriodic.tla)",
     "C04": "prior_counts as a matrix (non-symmetric ones included, SymmetricModel); metastable pairs with 2^28 self-counts",
     "C05": "index operands in every integer form incl. unsigned, numpy scalars and 0-d arrays; rows of 300..40000 elements; flatten() must hand out a copy",
